@@ -57,9 +57,8 @@ def f32Of (fl : Std.HashMap String String) (text : List Char) : Option (List Cha
 def showLog (log : List Diag) : String :=
   ",".intercalate (log.reverse.map fun d => s!"{d.kind.name}@{d.line}")
 
-def handleWith (table : Table) (code : List CodeEntry) (args : List String) : String :=
-  match args with
-  | [strict, hextext, toks, floats] =>
+def handleCore (table : Table) (code : List CodeEntry) (builtin : List Aml.Spec)
+    (strict hextext toks floats : String) : String :=
     match hexDecode hextext with
     | none => "bad-hex"
     | some bs =>
@@ -88,7 +87,7 @@ def handleWith (table : Table) (code : List CodeEntry) (args : List String) : St
         if ptoks.isEmpty then "err EmptyFile" else
         let env : Env := { toks := ptoks, strict := strict == "1", table := table, code := code,
                            known := known, symbols := symbols,
-                           special := IfData.special tyA2ml (f32Of fl) [],
+                           special := IfData.special tyA2ml (f32Of fl) builtin,
                            specialWrite := IfData.specialWrite tyA2ml }
         match runParseFile env with
         | .panic => "PANIC"
@@ -97,6 +96,21 @@ def handleWith (table : Table) (code : List CodeEntry) (args : List String) : St
         | .ok v s =>
           let text := writeFile env v (4 * ptoks.size + 64)
           s!"ok;log={showLog s.log};text={hexEncode (String.ofList text).toUTF8.toList}"
+
+/-- `a2l <strict> <hextext> <toks|L> <floats> [<hex A2ML text of the built-in specification>]` -/
+def handleWith (table : Table) (code : List CodeEntry) (args : List String) : String :=
+  match args with
+  | [strict, hextext, toks, floats] => handleCore table code [] strict hextext toks floats
+  | [strict, hextext, toks, floats, builtinHex] =>
+    match hexDecode builtinHex with
+    | none => "bad-hex"
+    | some bs =>
+      match String.fromUTF8? (ByteArray.mk bs.toArray) with
+      | none => "bad-builtin"
+      | some str =>
+        match Aml.parseA2ml str.toList with
+        | .ok sp => handleCore table code [sp] strict hextext toks floats
+        | _ => "bad-builtin"
   | _ => "bad-request"
 
 /-- the model instantiated with the table extracted from the shipped `specification.rs` -/
